@@ -583,6 +583,14 @@ example : (olaCore 3 1 (none : Option (List Int)) []).out = [0, 0] := by decide
 example : (olaCore 3 2 (none : Option (List Int)) [[1, 2, 3], [4, 5], [6, 7, 8]]).out = [1, 2] := by decide
 example : (olaCore 2 3 (none : Option (List Int)) [[1, 2], [3, 4]]).out = [1, 2, 3, 4] := by decide
 
+/-- non-vacuity of the plan theorems: an accepted keyword set, the three rejections, a partial chain -/
+example : (stftPlan [("size", .int 4), ("ola_wnd", .obj "w"), ("ola", .obj "list")] [("hop", .int 2)]).toOption.map (·.olaParams)
+    = some [("size", .int 4), ("hop", .int 2), ("wnd", .obj "w")] := by decide
+example : stftPlan [("size", .int 4), ("olawnd", .obj "w")] [] = .error (.unknownKey "olawnd") := by decide
+example : stftPlan [("size", .int 4), ("ola", .none), ("ola_wnd", .none)] [] = .error (.olaOptionWithoutOla "ola_wnd") := by decide
+example : stftPlan [("size", .int 4)] [("hop", .int 5)] = .error .hopGtSize := by decide
+example : stftDefaults [[("size", .int 4), ("hop", .int 2)], [("hop", .int 1)]] = [("size", .int 4), ("hop", .int 1)] := by decide
+
 end ALV.Props.C09
 
 #write_audit "C09"
